@@ -109,7 +109,7 @@ func newContracts() *Contracts {
 	return &Contracts{Preds: map[string]*PredDef{}, Funcs: map[string]*FuncContract{}, Types: map[string]*TypeContract{}, Specs: map[string]*SpecFun{}, Ghosts: map[string]string{}, LocalGhost: map[string]bool{}, Defines: map[string]string{}}
 }
 
-var tagRe = regexp.MustCompile(`\s*\[(C\d{2,3}(?:\.[A-Za-z0-9_\-']+)?|nospawn|trusted)\]\s*$`)
+var tagRe = regexp.MustCompile(`\s*\[(C\d{2,3}(?:\.[A-Za-z0-9_\-']+)?|nospawn|trusted|internal)\]\s*$`)
 
 func splitTags(s string) (string, []string) {
 	var tags []string
